@@ -1286,7 +1286,7 @@ void fff_onesample_permute_signs(fff_vector* xx, const fff_vector* x, double mag
 
   for (i=0; i<n; i++, bufx+=x->stride, bufxx+=xx->stride) {
     aux = m/2;
-    m = FFF_FLOOR(aux);
+    m = floor(aux);  /* FFF_FLOOR casts to int, which overflows for magic >= 2^32 */
     aux -= m;
     if (aux > 0)
       *bufxx = -*bufx;
